@@ -104,15 +104,18 @@ type File struct {
 	Unions     []*StructLike `json:"unions,omitempty"`
 	Exceptions []*StructLike `json:"exceptions,omitempty"`
 	Services   []*Service    `json:"services,omitempty"`
+	chainTop   string        // generator only: last alias of the typedef chain of this file
 }
 
 type Prog struct {
-	Files  []*File `json:"files"`
-	Root   int     `json:"root"`
-	ISeed  uint64  `json:"iseed"`           // how definition kinds are interleaved in the rendered text
-	Expect string  `json:"expect"`          // "ok", or the error class the single injected fault must give
-	Shape  string  `json:"shape"`           // generator's label
-	Fixed  bool    `json:"fixed,omitempty"` // hand-written case: reported as it is, not shrunk
+	Files    []*File `json:"files"`
+	Root     int     `json:"root"`
+	ISeed    uint64  `json:"iseed"`              // how definition kinds are interleaved in the rendered text
+	Expect   string  `json:"expect"`             // "ok", or the error class the single injected fault must give
+	Shape    string  `json:"shape"`              // generator's label
+	Shape2   string  `json:"shape2,omitempty"`   // how the (last) typedef chain is written
+	MaxChain int     `json:"maxchain,omitempty"` // longest generated chain
+	Fixed    bool    `json:"fixed,omitempty"`    // hand-written case: reported as it is, not shrunk
 	// Observe: a probe outside the property's hypotheses (definition named like a type keyword): the
 	// oracle's verdict is recorded in the statistics, not raised as a failure.
 	Observe bool `json:"observe,omitempty"`
